@@ -1,11 +1,13 @@
 """C02 — message framing is independent of stream segmentation (DESIGN §5 C02)."""
+import errno, os, socket
 import common, poxenv, ofgen
 from common import Check
 
 class ScriptSock:
     def __init__(self): self.chunks = []; self.sent = b""
     def recv(self, n, flags=0):
-        assert self.chunks, "recv with nothing scripted"
+        if not self.chunks:                   # a non-blocking socket with nothing queued: EAGAIN, however often it is asked
+            raise BlockingIOError(errno.EAGAIN, os.strerror(errno.EAGAIN))
         c = self.chunks.pop(0)
         assert len(c) <= n
         return c
@@ -14,6 +16,88 @@ class ScriptSock:
     def close(self): pass
     def fileno(self): return -1
     def getpeername(self): return ("peer", 6633)
+
+class _BadStr(Exception):
+    def __str__(self): raise RuntimeError("str() of this exception fails")
+
+# spellings of "the message handler raised" (all of them Exception subclasses: both read loops promise to survive those)
+EXC = {
+    "ValueError": lambda: ValueError("application bug"),
+    "RuntimeError": lambda: RuntimeError("No handler for ofp_type %s(%d)"),
+    "KeyError": lambda: KeyError(0),
+    "IndexError": lambda: IndexError("list index out of range"),
+    "AssertionError": lambda: AssertionError(),
+    "AttributeError": lambda: AttributeError("'NoneType' object has no attribute 'xid'"),
+    "OSError": lambda: OSError(errno.EAGAIN, "Resource temporarily unavailable"),
+    "ConnectionResetError": lambda: ConnectionResetError(errno.ECONNRESET, "Connection reset by peer"),
+    "StopIteration": lambda: StopIteration(),
+    "UnicodeDecodeError": lambda: UnicodeDecodeError("utf-8", b"\xff", 0, 1, "invalid start byte"),
+    "Empty": lambda: Exception(),
+    "BadStr": lambda: _BadStr("{} %s \u00e9\n2nd line"),
+}
+# spellings of "the stream ended with an error" (what recv() raises from then on)
+END_ERR = {
+    "ECONNRESET": lambda: OSError(errno.ECONNRESET, os.strerror(errno.ECONNRESET)),
+    "ETIMEDOUT": lambda: OSError(errno.ETIMEDOUT, os.strerror(errno.ETIMEDOUT)),
+    "ECONNABORTED": lambda: OSError(errno.ECONNABORTED, os.strerror(errno.ECONNABORTED)),
+    "EPIPE": lambda: OSError(errno.EPIPE, os.strerror(errno.EPIPE)),
+    "EHOSTUNREACH": lambda: OSError(errno.EHOSTUNREACH, os.strerror(errno.EHOSTUNREACH)),
+    "EBADF": lambda: OSError(errno.EBADF, os.strerror(errno.EBADF)),
+    "timeout": lambda: socket.timeout("timed out"),
+}
+
+class StreamSock:
+    """A non-blocking stream socket as the code under test sees it, driven by a script of events:
+         ["data", bytes]  bytes that one recv() hands out (the rest stays queued when fewer are asked for)
+         ["gap"]          nothing more has arrived yet: recv() raises EAGAIN until the I/O loop has gone back to select
+         ["eof"]          the peer has shut down: recv() returns b'' from now on
+         ["err", name]    recv() raises END_ERR[name] from now on
+       An exhausted script is a gap that never ends.  The contract holds for ANY number of recv() calls per read():
+       what comes after the queued data (EAGAIN, end of stream, error) is what the NEXT call gets."""
+    def __init__(self, script):
+        self.script = [list(e) for e in script]; self.sent = b""; self.handed = bytearray(); self.end_seen = False
+    def readable(self):                       # select is level-triggered: queued data, EOF and errors all report readable
+        return bool(self.script) and self.script[0][0] != "gap"
+    def pass_time(self):                      # the I/O loop went back to select and the next bytes arrived
+        if self.script and self.script[0][0] == "gap":
+            self.script.pop(0); return True
+        return False
+    def recv(self, n, flags=0):
+        if not self.script or self.script[0][0] == "gap":
+            raise BlockingIOError(errno.EAGAIN, os.strerror(errno.EAGAIN))
+        ev = self.script[0]
+        if ev[0] == "eof": self.end_seen = True; return b""
+        if ev[0] == "err": self.end_seen = True; raise END_ERR[ev[1]]()
+        out = ev[1][:n]
+        if not (flags & getattr(socket, "MSG_PEEK", 2)):
+            if len(ev[1]) > n: ev[1] = ev[1][n:]
+            else: self.script.pop(0)
+            self.handed += out
+        return out
+    def send(self, d, flags=0): self.sent += d; return len(d)
+    def shutdown(self, *a): pass
+    def close(self): pass
+    def fileno(self): return -1
+    def getpeername(self): return ("peer", 6633)
+    def setblocking(self, *a): pass
+
+def script_of(spec, cap):
+    """(script, stream) of one connection: spec["cuts"] and io["gaps"] cut the stream into recv() results; a gap (a trip
+    through select) follows a chunk iff io["gaps"] is "all" or names the position; io["end"] queues the end of the stream
+    right behind the last bytes (or behind a last gap when io["end_gap"])"""
+    io = spec.get("io") or {}
+    stream = b"".join(bytes.fromhex(m) for m in spec["msgs"])
+    if io.get("trunc"): stream = stream[:max(0, len(stream) - io["trunc"])]
+    gaps = io.get("gaps", "all")
+    chunks = segment(stream, list(spec["cuts"]) + (list(gaps) if gaps != "all" else []), cap)
+    script, pos = [], 0
+    for ch in chunks:
+        script.append(["data", ch]); pos += len(ch)
+        if pos < len(stream) and (gaps == "all" or pos in gaps): script.append(["gap"])
+    if io.get("end"):
+        if io.get("end_gap"): script.append(["gap"])
+        script.append(["eof"] if io["end"] == "eof" else ["err", io["end"]])
+    return script, stream
 
 CAP = {"ctl": 2048, "sw": 8192}          # Connection.read recv(2048); RecocoIOLoop._BUF_SIZE = 8192
 
@@ -32,27 +116,36 @@ class C02(Check):
     prop_module = "PoxModel.Properties.C02"
     lean_targets = ["drv_c02"]
     driver = "drv_c02"
-    theorems = ["Pox.C02.ctl_framing", "Pox.C02.ctl_prefix", "Pox.C02.sw_framing", "Pox.C02.sw_prefix", "Pox.C02.slice_framing", "Pox.C02.ctl_feed_no_disconnect"]
+    theorems = ["Pox.C02.ctl_framing", "Pox.C02.ctl_prefix", "Pox.C02.sw_framing", "Pox.C02.sw_prefix", "Pox.C02.slice_framing", "Pox.C02.ctl_feed_no_disconnect",
+                "Pox.C02.ctl_handler_outcome", "Pox.C02.sw_handler_outcome", "Pox.C02.ctl_framing_handlers", "Pox.C02.sw_framing_handlers",
+                "Pox.C02.ctl_eof", "Pox.C02.sw_eof"]
     anchors = [("pox/openflow/of_01.py", "Connection.read"), ("pox/datapaths/switch.py", "OFConnection.read"),
                ("pox/lib/ioworker/__init__.py", "IOWorker._do_recv"), ("pox/lib/ioworker/__init__.py", "IOWorker._push_receive_data"),
                ("pox/lib/ioworker/__init__.py", "IOWorker.peek"), ("pox/lib/ioworker/__init__.py", "IOWorker.consume_receive_buf")]
-    trusted_base = ["model Model/Framing.lean hand-written from of_01.Connection.read and OFConnection.read; tied by this correspondence run",
+    trusted_base = ["model Model/Framing.lean + Model/FramingIO.lean (handler outcome, end of stream) hand-written from of_01.Connection.read, OFConnection.read and IOWorker._do_recv; tied by this correspondence run",
                     "decoder abstracted as U (consumes exactly a well-formed message: that is C01); the driver instantiates U with the length-driven slice decoder (theorem slice_framing)"]
-    assumptions = ["message handlers do not disconnect the connection in the middle of a read (then Connection.read stops dispatching: that path is C09's)", "chunks are never empty (an empty recv is end-of-stream in the real code)", "recv never returns more than the 2048 bytes asked for"]
+    assumptions = ["message handlers do not disconnect the connection in the middle of a read (then Connection.read stops dispatching: that path is C09's)", "a chunk is what recv() handed out during one read(); an empty recv is the end of the stream (connEnd), as is a recv that raises once select reported the socket readable",
+                   "recv never returns more than the bytes asked for", "message handlers raise Exception subclasses only (a BaseException such as KeyboardInterrupt is not survived by the switch-side loop)"]
     design_ref = "DESIGN.md §5 C02"
     technique = "Lean 4 proof (induction over the chunk list with a message-boundary invariant) + differential correspondence of the model driver against Connection.read / OFConnection.read"
     level_text = ("Theorems ctl_framing/ctl_prefix/sw_framing/sw_prefix: for every decoder that consumes exactly a well-formed message, every message list and "
                   "every segmentation (unbounded), both read loops deliver exactly the messages in order, once each, holding an incomplete tail. The model is hand-written; "
-                  "each run re-checks it against the real read loops on exhaustive 1-cuts/2-cuts and random segmentations of streams of all 22 message types.")
+                  "each run re-checks it against the real read loops on exhaustive 1-cuts/2-cuts and random segmentations of streams of all 22 message types. "
+                  "ctl_handler_outcome/sw_handler_outcome/*_framing_handlers: the same for every outcome (returned/raised) of every message handler; ctl_eof/sw_eof: when the stream "
+                  "ends, exactly the complete messages among the bytes read so far have been delivered.")
     level_note = ("Trusted: Lean kernel, axioms propext/Classical.choice/Quot.sound, the hand-written model Model/Framing.lean and the harness (scripted socket, slice recorder). "
                   "Decoders are abstracted (their own correctness is C01). Python-level atomicity/GIL not involved (single-threaded).")
     rule = ("case = (side, 1..30 valid messages of the 22 types from the library's own classes, cut positions); corpus = every 1-cut of two fixed streams, "
-            "2-cuts near header boundaries, 1-byte dribble, cuts at 2047/2048/2049, bursts of 65..700 messages in one read; non-trivial = at least one cut falls strictly inside a message")
+            "2-cuts near header boundaries, 1-byte dribble, cuts at 2047/2048/2049, bursts of 65..700 messages in one read; "
+            "the handler of every single message / of several messages raising (12 spellings), a real SoftwareSwitch as the switch-side consumer; "
+            "stream sockets that end (EOF and 7 error spellings) right behind the last bytes or a select round later, at every byte position of a short stream, "
+            "with 1..120 recv() results queued at once, next to a companion connection that goes on; non-trivial = at least one cut falls strictly inside a message")
 
     def setup(self):
         poxenv.boot()
         import pox.openflow.of_01 as of_01, pox.openflow.libopenflow_01 as of
-        from pox.datapaths.switch import OFConnection
+        from pox.datapaths.switch import OFConnection, SoftwareSwitch
+        self.SoftwareSwitch = SoftwareSwitch
         from pox.lib.ioworker import IOWorker
         import pox.lib.ioworker as iow
         self.of_01, self.of, self.OFConnection, self.IOWorker, self.iow = of_01, of, OFConnection, IOWorker, iow
@@ -124,6 +217,110 @@ class C02(Check):
                 cases.append({"side": side, "msgs": tiny[:n], "cuts": []})
                 L = sum(len(m) // 2 for m in tiny[:n])
                 cases.append({"side": side, "msgs": tiny[:n], "cuts": [L - 3]})
+        return cases + self._corpus_handlers() + self._corpus_stream_end()
+
+    @staticmethod
+    def _ends(msgs):
+        e, p = [], 0
+        for m in msgs:
+            p += len(m) // 2; e.append(p)
+        return e
+
+    def _fixed_stream(self):
+        of = self.of
+        return [m.pack().hex() for m in (
+            of.ofp_hello(xid=1), of.ofp_barrier_reply(xid=2), of.ofp_echo_request(xid=3, body=b"0123456789abcdef"),
+            of.ofp_barrier_request(xid=4), of.ofp_features_request(xid=5), of.ofp_error(xid=6, type=of.OFPET_HELLO_FAILED, code=0, data=b"no thanks"),
+            of.ofp_echo_reply(xid=7, body=b"tail"), of.ofp_set_config(xid=8, miss_send_len=128), of.ofp_barrier_request(xid=9))]
+
+    def _corpus_handlers(self):
+        """the handler of a message RAISES (every position, every spelling, several at once, the real SoftwareSwitch behind
+        the switch-side connection): the messages that follow are still delivered, once each, under every segmentation"""
+        import random
+        rng = random.Random(61)
+        cases, names = [], sorted(EXC)
+        for side in ("ctl", "sw"):
+            for si, msgs in enumerate((self._fixed_stream(), self._stream(rng, 6), self._stream(rng, 5, small=False))):
+                e = self._ends(msgs); L = e[-1]
+                for i in range(len(msgs)):
+                    nxt = e[i]
+                    segs = ([], e[:-1], [nxt - 1], [nxt + 1], [nxt + 3, nxt + 9], [e[i - 1] + 2 if i else 2, nxt], list(range(7, L, 7)))
+                    if si == 0: segs += (list(range(1, L)), [20])
+                    for j, cuts in enumerate(segs):
+                        cases.append({"side": side, "msgs": msgs, "cuts": sorted(set(c for c in cuts if 0 < c < L)), "raise": [i],
+                                      "exc": names[(i + j + si) % len(names)]})
+                for rs in (list(range(len(msgs))), [0, 2, 4], [1, 2], [len(msgs) - 2, len(msgs) - 1]):
+                    for cuts in ([], e[:-1], [e[1] + 2], list(range(5, L, 5))):
+                        cases.append({"side": side, "msgs": msgs, "cuts": cuts, "raise": rs, "exc": names[(len(rs) + len(cuts)) % len(names)]})
+            msgs = self._fixed_stream(); e = self._ends(msgs)
+            for n, name in enumerate(names):                                   # every spelling: one read, one message per read, mid-header
+                for cuts in ([], e[:-1], [x + 3 for x in e[:-1]]):
+                    cases.append({"side": side, "msgs": msgs, "cuts": cuts, "raise": [n % 7, 7], "exc": name})
+            for k in range(6):                                                 # the handler that rebinds the table also raises; a companion's handler raises
+                a, b = self._stream(rng, 5), self._stream(rng, 4)
+                ea, La, Lb = self._ends(a), self._ends(a)[-1], self._ends(b)[-1]
+                for cuts in ([], ea[:-1], [ea[k % 4] + 1]):
+                    cases.append({"side": side, "msgs": a, "cuts": cuts, "swap": k % 4, "raise": [k % 4], "exc": names[k]})
+                    cases.append({"side": side, "msgs": a, "cuts": cuts, "swap": k % 4, "raise": [k % 4 + 1], "exc": names[k + 6]})
+                cases.append({"side": side, "msgs": a, "cuts": sorted(set([3, 9, La // 2, La - 1]) & set(range(1, La))), "raise": [k % 5],
+                              "other": {"msgs": b, "cuts": sorted(set([1, 8, 11, Lb // 3]) & set(range(1, Lb))), "raise": [0, 2], "io": {"gaps": "all"}},
+                              "io": {"gaps": "all"}})
+        for k in range(24):                                                    # a real SoftwareSwitch as the consumer, messages of all 22 types
+            msgs = self._stream(rng, 8) if k % 3 else self._fixed_stream()
+            e = self._ends(msgs); L = e[-1]
+            for cuts in ([], e[:-1], [x + 3 for x in e[:-1]], list(range(11, L, 11))):
+                cases.append({"side": "sw", "msgs": msgs, "cuts": cuts, "consumer": "switch"})
+        return cases
+
+    def _corpus_stream_end(self):
+        """stream sockets that END: the peer's FIN / a reset is queued right behind the last bytes, or arrives a select round
+        later; the peer hangs up at every byte position of a short stream; several recv() results queued without a trip
+        through select in between (the code may take them in one read() or in many)"""
+        import random
+        rng = random.Random(62)
+        cases, errs = [], sorted(END_ERR)
+        for side in ("ctl", "sw"):
+            cap = CAP[side]
+            short = self._fixed_stream()[:5]; es = self._ends(short); Ls = es[-1]
+            for trunc in range(0, Ls):                                         # loss at every prefix
+                for gaps, cuts in (([], []), ("all", es[:-1]), ([es[1]], [es[0] + 3, es[2]])):
+                    for end_gap in (False, True):
+                        if end_gap and trunc % 4: continue
+                        cases.append({"side": side, "msgs": short, "cuts": [c for c in cuts if c < Ls - trunc],
+                                      "io": {"gaps": gaps if gaps == "all" else [g for g in gaps if g < Ls - trunc], "end": "eof" if trunc % 3 else errs[trunc % len(errs)],
+                                             "end_gap": end_gap, "trunc": trunc}})
+            full = self._fixed_stream(); ef = self._ends(full); Lf = ef[-1]
+            for end in ["eof"] + errs:                                          # every spelling of the end
+                for gaps, cuts in (([], []), ([], ef[:-1]), ("all", ef[:-1]), ([ef[3]], [x + 5 for x in ef[:-1]]), ([], list(range(1, Lf)))):
+                    for end_gap in (False, True):
+                        cases.append({"side": side, "msgs": full, "cuts": cuts, "io": {"gaps": gaps, "end": end, "end_gap": end_gap}})
+            for k in range(5):                                                  # handlers raise AND the stream ends
+                cases.append({"side": side, "msgs": full, "cuts": [ef[k] + 2, ef[k + 2]], "raise": [k, k + 1], "exc": sorted(EXC)[k],
+                              "io": {"gaps": [], "end": "eof" if k % 2 else "ECONNRESET", "trunc": k}})
+            # messages longer than one recv(), the end queued behind them
+            big = [self.of.ofp_hello(xid=1).pack().hex(), self.of.ofp_packet_in(xid=2, in_port=1, data=bytes((i * 7) & 0xff for i in range(cap + 950))).pack().hex(),
+                   self.of.ofp_barrier_reply(xid=3).pack().hex(), self.of.ofp_packet_in(xid=4, in_port=2, data=bytes(2 * cap)).pack().hex(),
+                   self.of.ofp_echo_request(xid=5, body=b"last").pack().hex()]
+            eb = self._ends(big); Lb = eb[-1]
+            for end in (None, "eof", "ECONNRESET"):
+                for gaps, cuts in (([], []), ("all", []), ([eb[1]], [1000]), ([], eb[:-1]), ([cap], [cap, 2 * cap])):
+                    for trunc in (0, 5, 12 + cap):
+                        cases.append({"side": side, "msgs": big, "cuts": cuts, "io": {"gaps": gaps, "end": end, "trunc": trunc}})
+            # many recv() results queued at once (more than any plausible per-read bound), open and ended
+            tiny = [self.of.ofp_echo_request(xid=i, body=bytes([i & 0xff] * (i % 5))).pack().hex() for i in range(120)]
+            et = self._ends(tiny); Lt = et[-1]
+            for n in (3, 15, 16, 17, 33, 64, 120):
+                for end in (None, "eof", "ETIMEDOUT"):
+                    cases.append({"side": side, "msgs": tiny[:n], "cuts": et[:n - 1], "io": {"gaps": [], "end": end}})
+                    cases.append({"side": side, "msgs": tiny[:n], "cuts": [x + 4 for x in et[:n - 1]], "io": {"gaps": [et[n // 2]], "end": end, "trunc": 2}})
+            # two connections in the same select rounds: one ends, the other goes on and must get everything
+            for k in range(8):
+                a, b = self._stream(rng, 4), self._stream(rng, 5)
+                ea, ebb = self._ends(a), self._ends(b)
+                cases.append({"side": side, "msgs": a, "cuts": ea[:-1] if k % 2 else [ea[0] + 3], "io": {"gaps": [] if k % 4 < 2 else "all", "end": "eof" if k < 4 else "ECONNRESET", "trunc": k % 3},
+                              "other": {"msgs": b, "cuts": [ebb[1], ebb[2] + 2], "io": {"gaps": "all" if k % 2 else [ebb[1]]}}})
+                cases.append({"side": side, "msgs": b, "cuts": [ebb[1], ebb[2] + 2], "io": {"gaps": "all" if k % 2 else []},
+                              "other": {"msgs": a, "cuts": ea[:-1] if k % 2 else [ea[0] + 3], "io": {"gaps": [], "end": "eof" if k < 4 else "EPIPE", "trunc": k % 3}}})
         return cases
 
     def generate(self, rng, tier):
@@ -140,6 +337,33 @@ class C02(Check):
                 case["other"] = {"msgs": m2, "cuts": sorted(rng.randint(1, max(1, L2 - 1)) for _ in range(rng.randint(0, 8)))}
             if rng.random() < 0.3: case["swap"] = rng.randint(0, len(msgs) - 1)
             yield case
+        names, errs = sorted(EXC), sorted(END_ERR)
+        for _ in range(150 if tier == "quick" else 3000):          # handlers that raise / stream sockets that end
+            side = rng.choice(["ctl", "sw"])
+            msgs = self._stream(rng, rng.choice([1, 2, 3, 5, 8, rng.randint(1, 30)]), small=rng.random() < 0.8)
+            L = sum(len(m) // 2 for m in msgs)
+            cuts = sorted(set(rng.randint(1, max(1, L - 1)) for _ in range(rng.choice([0, 1, 2, 3, rng.randint(0, 12), len(msgs)]))))
+            if rng.random() < 0.3: cuts = self._ends(msgs)[:-1]
+            case = {"side": side, "msgs": msgs, "cuts": cuts}
+            def io(L, cuts):
+                d = {"gaps": rng.choice(["all", [], sorted(c for c in cuts if rng.random() < 0.5)])}
+                if rng.random() < 0.7:
+                    d["end"] = rng.choice(["eof", "eof", rng.choice(errs)]); d["end_gap"] = rng.random() < 0.3
+                if rng.random() < 0.4: d["trunc"] = rng.randint(0, min(L - 1, 40))
+                return d
+            kind = rng.random()
+            if kind < 0.6: case["io"] = io(L, cuts)
+            if kind > 0.4 or rng.random() < 0.3:
+                case["raise"] = sorted(set(rng.randint(0, len(msgs) - 1) for _ in range(rng.choice([1, 1, 2, len(msgs)])))); case["exc"] = rng.choice(names)
+            if side == "sw" and rng.random() < 0.15: case["consumer"] = "switch"
+            if rng.random() < 0.2: case["swap"] = rng.randint(0, len(msgs) - 1)
+            if rng.random() < 0.2:
+                m2 = self._stream(rng, rng.choice([1, 2, 5, rng.randint(1, 12)])); L2 = sum(len(m) // 2 for m in m2)
+                c2 = sorted(set(rng.randint(1, max(1, L2 - 1)) for _ in range(rng.randint(0, 6))))
+                case.setdefault("io", {"gaps": "all"})
+                case["other"] = {"msgs": m2, "cuts": c2, "io": io(L2, c2)}
+                if rng.random() < 0.4: case["other"]["raise"] = [rng.randint(0, len(m2) - 1)]
+            yield case
         if tier == "thorough":                                      # every 2-cut of short streams
             for _ in range(6):
                 msgs = self._stream(rng, 3)
@@ -153,7 +377,10 @@ class C02(Check):
     def impl(self, case):
         stream = b"".join(bytes.fromhex(m) for m in case["msgs"])
         chunks = segment(stream, case["cuts"], CAP[case["side"]])
+        if case.get("io") is not None or (case.get("other") or {}).get("io") is not None:
+            return self._impl_stream(case)
         delivered, counts, last, tables = [], [], [None], []
+        rec = {"delivered": delivered, "raised": []}
         def wrap(u):
             if u is None: return None
             def w(raw, offset=0):
@@ -174,10 +401,12 @@ class C02(Check):
             # "swap": the handler of the k-th message REBINDS the connection's handler table (as the end of the handshake does,
             # of_01._finish_connecting: con.handlers = ...) — every later message, in the same read too, belongs to the new table
             swap = case.get("swap")
-            def h_new(c, m): delivered.append(last[0].hex()); tables.append(1)
+            after = self._after(case, rec)
+            def h_new(c, m): delivered.append(last[0].hex()); tables.append(1); after(c, m)
             def h_old(c, m):
                 delivered.append(last[0].hex()); tables.append(0)
                 if swap is not None and len(delivered) == swap + 1: c.handlers = [h_new] * 256
+                after(c, m)
             con.handlers = [h_old] * 256
             if oth:
                 osock = ScriptSock(); ocon = self.of_01.Connection(osock)
@@ -212,10 +441,12 @@ class C02(Check):
             ofc = self.OFConnection(w)
             ofc.unpackers = [wrap(u) for u in ofc.unpackers]
             swap = case.get("swap")
-            def h_new(c, m): delivered.append(last[0].hex()); tables.append(1)
+            after = self._after(case, rec, self._consumer(case, ofc))
+            def h_new(c, m): delivered.append(last[0].hex()); tables.append(1); after(c, m)
             def h_old(c, m):
                 delivered.append(last[0].hex()); tables.append(0)
                 if swap is not None and len(delivered) == swap + 1: c.set_message_handler(h_new)
+                after(c, m)
             ofc.set_message_handler(h_old)
             if oth:
                 osock = ScriptSock(); ow = loop.new_worker(osock); oofc = self.OFConnection(ow)
@@ -241,20 +472,140 @@ class C02(Check):
                     ostatus = ofeed(ch)
             buf = bytes(w.receive_buf).hex()
         return {"delivered": delivered, "counts": counts, "buf": buf, "status": status, "chunks": [c.hex() for c in chunks],
-                "other_delivered": odelivered, "other_status": ostatus, "tables": tables}
+                "other_delivered": odelivered, "other_status": ostatus, "tables": tables, "raised": rec["raised"]}
+
+    # -- what a handler does after it has recorded its message: raise (case["raise"] = positions in delivery order,
+    #    case["exc"] = the spelling), or hand the message to a real SoftwareSwitch (which raises for every type it has no
+    #    _rx_ method for, and from inside some of its handlers)
+    def _after(self, spec, rec, switch=None):
+        rs = set(spec.get("raise") or ()); mk = EXC[spec.get("exc", "ValueError")]
+        def after(c, m):
+            i = len(rec["delivered"]) - 1
+            if i in rs:
+                rec["raised"].append(i); raise mk()
+            if switch is not None:
+                try: switch.rx_message(c, m)
+                except Exception:
+                    rec["raised"].append(i); raise
+        return after
+
+    def _consumer(self, spec, ofc):
+        if spec.get("consumer") != "switch": return None
+        sw = self.SoftwareSwitch(dpid=7, name="c02", ports=2)
+        sw.set_connection(ofc)
+        return sw
+
+    # -- the same two read paths over a stream socket that can end: several connections served round by round the way
+    #    OpenFlow_01_Task.run / RecocoIOLoop.run serve them (read while select reports readable; a connection whose read
+    #    returned False / whose worker closed is dropped, the others go on)
+    def _impl_stream(self, case):
+        side, cap = case["side"], CAP[case["side"]]
+        specs = [case] + ([case["other"]] if case.get("other") else [])
+        loop = self.iow.RecocoIOLoop() if side == "sw" else None
+        conns = []
+        for spec in specs:
+            script, _ = script_of(spec, cap)
+            c = {"spec": spec, "sock": StreamSock(script), "delivered": [], "raised": [], "tables": [], "calls": [], "status": "alive",
+                 "live": True, "last": [None], "budget": 2 * len(script) + 8}
+            def wrap(u, c=c):
+                if u is None: return None
+                def w(raw, offset=0):
+                    r = u(raw, offset)
+                    c["last"][0] = bytes(raw[offset:r[0]])
+                    return r
+                return w
+            swap = spec.get("swap")
+            if side == "ctl":
+                con = c["obj"] = self.of_01.Connection(c["sock"])
+                con.unpackers = [wrap(u) for u in con.unpackers]
+                after = self._after(spec, c)
+                rebind = lambda conn, h: setattr(conn, "handlers", [h] * 256)
+            else:
+                c["w"] = loop.new_worker(c["sock"])
+                con = c["obj"] = self.OFConnection(c["w"])
+                con.unpackers = [wrap(u) for u in con.unpackers]
+                after = self._after(spec, c, self._consumer(spec, con))
+                rebind = lambda conn, h: conn.set_message_handler(h)
+            def h_new(conn, m, c=c, after=after):
+                c["delivered"].append(c["last"][0].hex()); c["tables"].append(1); after(conn, m)
+            def h_old(conn, m, c=c, after=after, swap=swap, rebind=rebind, h_new=h_new):
+                c["delivered"].append(c["last"][0].hex()); c["tables"].append(0)
+                if swap is not None and len(c["delivered"]) == swap + 1: rebind(conn, h_new)
+                after(conn, m)
+            rebind(con, h_old)
+            conns.append(c)
+        if side == "sw":
+            g = loop.run(); next(g)
+        for _ in range(sum(c["budget"] for c in conns)):
+            ready = [c for c in conns if c["live"] and c["sock"].readable() and c["budget"] > 0]
+            if not ready:
+                if not any([c["sock"].pass_time() for c in conns if c["live"]]): break
+                continue
+            before = [len(c["sock"].handed) for c in ready]
+            if side == "ctl":
+                for c in ready:
+                    c["budget"] -= 1
+                    try:
+                        r = c["obj"].read()
+                    except Exception as e:
+                        c["status"] = "dead:" + type(e).__name__; c["live"] = False; continue
+                    if r is False: c["status"] = "closed"; c["live"] = False
+            else:
+                for c in ready: c["budget"] -= 1
+                try:
+                    g.send(([c["w"] for c in ready], [], []))
+                except StopIteration:
+                    for c in conns:
+                        if c["live"]: c["status"] = "dead:loop"; c["live"] = False
+                for c in ready:
+                    if c["live"] and (c["w"].closed or c["w"]._shutdown_send): c["status"] = "closed"; c["live"] = False
+            for c, b in zip(ready, before):
+                got = bytes(c["sock"].handed[b:])
+                if got: c["calls"].append([got.hex(), len(c["delivered"])])
+            for c in conns:                                         # the others waited in select during this round
+                if c["live"] and not any(c is r for r in ready): c["sock"].pass_time()
+        m, o = conns[0], (conns[1] if len(conns) > 1 else None)
+        buf = bytes(m["obj"].buf).hex() if side == "ctl" else bytes(m["w"].receive_buf).hex()
+        obs = {"delivered": m["delivered"], "counts": [k for _, k in m["calls"]], "buf": buf, "status": m["status"],
+               "chunks": [h for h, _ in m["calls"]], "tables": m["tables"], "raised": m["raised"], "end_seen": m["sock"].end_seen,
+               "other_delivered": o["delivered"] if o else [], "other_status": o["status"] if o else "alive"}
+        if o: obs.update({"other_chunks": [h for h, _ in o["calls"]], "other_counts": [k for _, k in o["calls"]]})
+        return obs
+
+    @staticmethod
+    def _is_stream(case):
+        return case.get("io") is not None or (case.get("other") or {}).get("io") is not None
+
+    def _raising(self, case, obs=None):
+        idx = set(case.get("raise") or ()) | set((obs or {}).get("raised") or ())
+        return sorted(set(case["msgs"][i] for i in idx if 0 <= i < len(case["msgs"])))
 
     def model_request(self, case):
+        if self._is_stream(case): return None          # the model is fed what recv() handed out per read(): model_request2
         stream = b"".join(bytes.fromhex(m) for m in case["msgs"])
-        return {"side": case["side"], "chunks": [c.hex() for c in segment(stream, case["cuts"], CAP[case["side"]])]}
+        return {"side": case["side"], "chunks": [c.hex() for c in segment(stream, case["cuts"], CAP[case["side"]])],
+                "raising": self._raising(case)}
+
+    def model_request2(self, case, obs):
+        """stream-socket cases: one model chunk per read() of the implementation = the bytes recv() handed out during that
+        read (however many recv() calls it made), then the end of the stream if the script has one"""
+        if not self._is_stream(case): return None
+        return {"side": case["side"], "chunks": obs["chunks"], "raising": self._raising(case, obs),
+                "end": bool((case.get("io") or {}).get("end"))}
+
+    def _view_keys(self, case):
+        # once the stream has ended the connection object is thrown away: its leftover buffer is nobody's business
+        return ("delivered", "counts", "status") if (case.get("io") or {}).get("end") else ("delivered", "counts", "buf", "status")
 
     def impl_view(self, case, obs):
-        return {k: obs[k] for k in ("delivered", "counts", "buf", "status")}
+        return {k: obs[k] for k in self._view_keys(case)}
 
     def model_obs(self, case, resp):
-        return {k: resp.get(k) for k in ("delivered", "counts", "buf", "status")} if "error" not in resp else resp
+        return {k: resp.get(k) for k in self._view_keys(case)} if "error" not in resp else resp
 
     # -- the property itself, on the implementation's observables
     def oracle(self, case, obs):
+        if self._is_stream(case): return self._oracle_stream(case, obs)
         msgs = case["msgs"]
         if obs["status"] != "alive": return "connection %s on a well-formed stream" % obs["status"]
         if case.get("other"):
@@ -263,11 +614,8 @@ class C02(Check):
                 return "companion connection delivered %d messages, sent %d (state shared between connections?)" % (len(obs["other_delivered"]), len(case["other"]["msgs"]))
         if obs["delivered"] != msgs:
             return "delivered %d messages, sent %d (lost/duplicated/merged/reordered)" % (len(obs["delivered"]), len(msgs))
-        if case.get("swap") is not None:
-            want_t = [0 if i <= case["swap"] else 1 for i in range(len(msgs))]
-            if obs["tables"] != want_t:
-                bad = [i for i, (a, b) in enumerate(zip(obs["tables"], want_t)) if a != b]
-                return "message %d after a handler switch was given to the old handler table" % (bad[0] - case["swap"])
+        f = self._oracle_tables(case, obs)
+        if f: return f
         ends, p = [], 0
         for m in msgs:
             p += len(m) // 2; ends.append(p)
@@ -279,6 +627,47 @@ class C02(Check):
         if obs["buf"] != "": return "residual bytes in buffer after the whole stream"
         return None
 
+    def _oracle_tables(self, case, obs):
+        if case.get("swap") is None: return None
+        want_t = [0 if i <= case["swap"] else 1 for i in range(len(obs["tables"]))]
+        if obs["tables"] != want_t:
+            bad = [i for i, (a, b) in enumerate(zip(obs["tables"], want_t)) if a != b]
+            return "message %d after a handler switch was given to the old handler table" % (bad[0] - case["swap"])
+        return None
+
+    def _oracle_conn(self, spec, cap, delivered, chunks, counts, status, who):
+        """one connection over a stream socket.  While the stream is open: exactly the complete messages of the bytes sent,
+        in order, once each, and the connection stays up.  When the peer ended the stream: every complete message among the
+        bytes recv() handed out (and nothing else) was delivered — whatever the number of recv() calls per read()."""
+        msgs, io = spec["msgs"], spec.get("io") or {}
+        _, stream = script_of(spec, cap)
+        ends, p = [], 0
+        for m in msgs:
+            p += len(m) // 2; ends.append(p)
+        if not io.get("end"):
+            if status != "alive": return "%sconnection %s on a well-formed stream" % (who, status)
+            k = sum(1 for e in ends if e <= len(stream))
+            if delivered != msgs[:k]:
+                return "%sdelivered %d messages, sent %d (lost/duplicated/merged/reordered)" % (who, len(delivered), k)
+        else:
+            k = sum(1 for e in ends if e <= sum(len(ch) // 2 for ch in chunks))
+            if delivered != msgs[:k]:
+                return "%sdelivered %d messages, %d were complete in the bytes read before the stream ended (%s)" % (who, len(delivered), k, io["end"])
+        got = 0
+        for ch, cnt in zip(chunks, counts):
+            got += len(ch) // 2
+            want = sum(1 for e in ends if e <= got)
+            if cnt != want: return "%safter %d bytes %d messages delivered, %d complete" % (who, got, cnt, want)
+        return None
+
+    def _oracle_stream(self, case, obs):
+        cap = CAP[case["side"]]
+        if case.get("other"):
+            f = self._oracle_conn(case["other"], cap, obs["other_delivered"], obs["other_chunks"], obs["other_counts"], obs["other_status"], "companion connection ")
+            if f: return f
+        return (self._oracle_conn(case, cap, obs["delivered"], obs["chunks"], obs["counts"], obs["status"], "")
+                or self._oracle_tables(case, obs))
+
     def finding_key(self, case, obs, failure):
         return "%s:%s" % (case["side"], failure.split(",")[0][:40])
 
@@ -286,13 +675,28 @@ class C02(Check):
         p, inner = 0, set()
         for m in case["msgs"]:
             inner.update(range(p + 1, p + len(m) // 2)); p += len(m) // 2
-        return any(c in inner for c in case["cuts"])
+        gaps = (case.get("io") or {}).get("gaps")
+        return any(c in inner for c in list(case["cuts"]) + (list(gaps) if isinstance(gaps, list) else []))
 
     def shrink_candidates(self, case):
+        import copy
         for i in range(len(case["msgs"])):
             if len(case["msgs"]) > 1:
                 c = dict(case); c["msgs"] = case["msgs"][:i] + case["msgs"][i + 1:]; yield c
         for i in range(len(case["cuts"])):
             c = dict(case); c["cuts"] = case["cuts"][:i] + case["cuts"][i + 1:]; yield c
+        for k in ("other", "swap", "consumer"):
+            if k in case:
+                c = dict(case); del c[k]; yield c
+        for i in range(len(case.get("raise") or ())):
+            c = dict(case); c["raise"] = case["raise"][:i] + case["raise"][i + 1:]; yield c
+        io = case.get("io")
+        if io:
+            if isinstance(io.get("gaps"), list):
+                for i in range(len(io["gaps"])):
+                    c = copy.deepcopy(case); del c["io"]["gaps"][i]; yield c
+            for k in ("trunc", "end_gap"):
+                if io.get(k):
+                    c = copy.deepcopy(case); del c["io"][k]; yield c
 
 CHECK = C02
